@@ -1,4 +1,5 @@
 // C02: readers decode every spec-conformant file, however it was encoded.
+#include "tmpdir.hpp"
 #include "enc.hpp"
 
 #include <osmium/io/any_input.hpp>
@@ -62,7 +63,14 @@ static Obj gen_object(Src& s, int type, const Data& d, size_t max_list) {
             x.ts -= x.ts % static_cast<uint32_t>(d.plan.ts_mult);
             if (x.ts == 0) x.ts = static_cast<uint32_t>(d.plan.ts_mult);
         }
-        if (x.uid == 0) x.uid = 1 + static_cast<uint32_t>(s.draw(1000));
+        if (s.chance(1, 8)) {
+            // an anonymous edit: no uid, no name, but all the other metadata (early OSM history; o5m writes the pair ("", "") for it,
+            // which takes a slot in the string table like any other pair and is referenced by later anonymous objects)
+            x.uid = 0;
+            x.user.clear();
+        } else if (x.uid == 0) {
+            x.uid = 1 + static_cast<uint32_t>(s.draw(1000));
+        }
     }
     for (auto& m : x.members) avoid_o5m_role_limit(m.role);
     if (s.chance(1, 10)) {
@@ -174,7 +182,7 @@ struct ReadBack {
 
 static ReadBack read_file(const std::string& bytes, const char* format, bool from_fd, const std::string& what, const std::string& choices) {
     ReadBack r;
-    static const std::string path = "/dev/shm/verif-c02-" + std::to_string(getpid());
+    static const std::string path = tmpdir::prefix() + "c02-" + std::to_string(getpid());
     try {
         if (from_fd) {
             std::ofstream f(path, std::ios::binary | std::ios::trunc);
@@ -357,6 +365,51 @@ VP_BUILTIN(F04_o5m_file_ending_within_ten_bytes_of_a_dataset) {
         ReadBack got = read_file(f, "o5m", false, "o5m", "header and bounding box only (17 bytes)");
         compare({}, got, "o5m", "header and bounding box only");
         VP_CHECK(got.boxes.size() == 1 && got.boxes[0].first == (model::Loc{-5000, -4000}) && got.boxes[0].second == (model::Loc{5000, 4000}), "decode-header-o5m", "bounding box decoded wrongly");
+    }
+}
+
+VP_BUILTIN(F32_o5m_reference_to_the_anonymous_user_pair) {
+    // node 1 stores a long uid/user pair in the first table slot; a reset; node 2 is anonymous (the pair ("", "") written inline: it
+    // takes the first slot again); node 3 refers to that pair. Both must come back with uid 0 and no user name.
+    using enc::pb::varint;
+    using enc::pb::zz;
+    auto node = [](int64_t id_delta, int64_t ts_delta, int64_t cs_delta, const std::string& user_field, int64_t lon_delta, int64_t lat_delta) {
+        std::string b;
+        varint(b, zz(id_delta));
+        varint(b, 1);  // version
+        varint(b, zz(ts_delta));
+        varint(b, zz(cs_delta));
+        b += user_field;
+        varint(b, zz(lon_delta));
+        varint(b, zz(lat_delta));
+        std::string d(1, static_cast<char>(0x10));
+        varint(d, b.size());
+        return d + b;
+    };
+    for (const std::string& name : {std::string{"alice"}, std::string(200, 'x')}) {
+        std::string f = "\xff\xe0\x04o5m2";
+        f += node(1, 100, 5, std::string("\0\x07\0", 3) + name + std::string(1, '\0'), 10, 20);
+        f += static_cast<char>(0xff);
+        f += node(2, 100, 5, std::string("\0\0\0", 3), 10, 20);
+        f += node(1, 0, 0, std::string("\x01", 1), 0, 0);
+        f += static_cast<char>(0xfe);
+        std::vector<Obj> want;
+        for (int64_t id : {1, 2, 3}) {
+            Obj n = tiny_node(id);
+            n.version = 1;
+            n.ts = 100;
+            n.cs = 5;
+            if (id == 1) {
+                n.uid = 7;
+                n.user = name;
+            }
+            want.push_back(n);
+        }
+        for (bool fd : {false, true}) {
+            const std::string what = "o5m file with a reference to the anonymous user pair after a reset (first slot held a " + std::to_string(name.size()) + "-byte name)";
+            ReadBack got = read_file(f, "o5m", fd, "o5m", what);
+            compare(want, got, "o5m", what);
+        }
     }
 }
 
